@@ -756,31 +756,35 @@ func (data *Data) UpdateSchema(database string, retentionPolicy string, mst stri
 		newSchema := NewCleanSchema(0)
 		msti.Schema = &newSchema
 	}
+	// Validate the whole batch before the first change: a command that fails
+	// with a type conflict must leave the schema untouched.
+	pending := make(map[string]int32, len(fieldToCreate))
+	for i := range fieldToCreate {
+		name, typ := fieldToCreate[i].GetFieldName(), fieldToCreate[i].GetFieldType()
+		if existVal, ok := (*msti.Schema)[name]; ok {
+			if int32(existVal.Typ) != typ {
+				return ErrFieldTypeConflict
+			}
+			continue
+		}
+		if t, ok := pending[name]; ok && t != typ {
+			return ErrFieldTypeConflict
+		}
+		pending[name] = typ
+	}
 	if SchemaCleanEn {
 		cleanSchema := msti.Schema
 		for i := range fieldToCreate {
 			existVal, ok := (*cleanSchema)[fieldToCreate[i].GetFieldName()]
-			if !ok {
-				(*cleanSchema)[fieldToCreate[i].GetFieldName()] = SchemaVal{Typ: int8(fieldToCreate[i].GetFieldType()), EndTime: fieldToCreate[i].GetEndTime()}
-				continue
-			}
-			if int32(existVal.Typ) != fieldToCreate[i].GetFieldType() {
-				return ErrFieldTypeConflict
-			}
-			if existVal.EndTime < fieldToCreate[i].GetEndTime() {
+			if !ok || existVal.EndTime < fieldToCreate[i].GetEndTime() {
 				(*cleanSchema)[fieldToCreate[i].GetFieldName()] = SchemaVal{Typ: int8(fieldToCreate[i].GetFieldType()), EndTime: fieldToCreate[i].GetEndTime()}
 			}
 		}
 	} else {
 		normalSchema := msti.Schema
 		for i := range fieldToCreate {
-			existType, ok := (*normalSchema)[fieldToCreate[i].GetFieldName()]
-			if !ok {
+			if _, ok := (*normalSchema)[fieldToCreate[i].GetFieldName()]; !ok {
 				msti.Schema.SetTyp(fieldToCreate[i].GetFieldName(), fieldToCreate[i].GetFieldType())
-				continue
-			}
-			if int32(existType.Typ) != fieldToCreate[i].GetFieldType() {
-				return ErrFieldTypeConflict
 			}
 		}
 	}
